@@ -1,6 +1,6 @@
 (* C16 -- what acceptance by the monitor means: Prop-level consequences for ANY trace
    (the model's or the implementation's), and the codec round trip. *)
-From Coq Require Import List NArith ZArith Bool String Lia.
+From Coq Require Import List NArith ZArith Arith Bool String Lia.
 Import ListNotations.
 From TV Require Import Lib.Obs C16.Model C16.Spec C16.Run.
 
@@ -14,26 +14,17 @@ Lemma mon_item_summary : forall a i a',
 Proof.
   intros a i a' H. destruct a as [sent hc fired loc sc echo].
   assert (D : forall x : option cpay, or_else x None = x) by (intros [x|]; reflexivity).
-  destruct i as [[c r| | |]|[p|k| | | |]| |c r| | |]; cbn in H; cbn [first_hc is_sclose is_onclose].
+  destruct i as [[c r| | |]|[p|k| | | |]| |c r| | | | | |]; cbn in H; cbn [first_hc is_sclose is_onclose];
+    try (inversion H; subst; cbn; rewrite ?D, ?orb_false_r; repeat split; auto; fail).
   - destruct sent; try discriminate. destruct echo as [e|].
     + destruct (oN_eqb c e && is_nil r); inversion H; subst; cbn; rewrite ?D, ?orb_false_r; repeat split; auto.
     + inversion H; subst; cbn; rewrite ?D, ?orb_false_r; repeat split; auto.
   - destruct sent; inversion H; subst; cbn; rewrite ?D, ?orb_false_r; repeat split; auto.
-  - inversion H; subst; cbn; rewrite ?D, ?orb_false_r; repeat split; auto.
-  - inversion H; subst; cbn; rewrite ?D, ?orb_false_r; repeat split; auto.
+  - destruct sent; inversion H; subst; cbn; rewrite ?D, ?orb_false_r; repeat split; auto.
   - destruct hc; inversion H; subst; cbn; rewrite ?orb_false_r; repeat split; auto.
-  - inversion H; subst; cbn; rewrite ?D, ?orb_false_r; repeat split; auto.
-  - inversion H; subst; cbn; rewrite ?D, ?orb_false_r; repeat split; auto.
-  - inversion H; subst; cbn; rewrite ?D, ?orb_false_r; repeat split; auto.
-  - inversion H; subst; cbn; rewrite ?D, ?orb_false_r; repeat split; auto.
-  - inversion H; subst; cbn; rewrite ?D, ?orb_false_r; repeat split; auto.
-  - inversion H; subst; cbn; rewrite ?D, ?orb_false_r; repeat split; auto.
   - destruct fired; try discriminate.
     destruct (match hc with Some p => (code_of p, reason_of p) | None => (None, None) end) as [ec er].
     destruct (oN_eqb c ec && oL_eqb r er); inversion H; subst; cbn; rewrite ?D, ?orb_false_r; repeat split; auto.
-  - inversion H; subst; cbn; rewrite ?D, ?orb_false_r; repeat split; auto.
-  - inversion H; subst; cbn; rewrite ?D, ?orb_false_r; repeat split; auto.
-  - inversion H; subst; cbn; rewrite ?D, ?orb_false_r; repeat split; auto.
 Qed.
 
 Lemma or_else_assoc : forall (a b c : option cpay), or_else (or_else a b) c = or_else a (or_else b c).
@@ -41,7 +32,7 @@ Proof. intros [a|] [b|] [c|]; reflexivity. Qed.
 Lemma first_hc_app : forall l1 l2, first_hc (l1 ++ l2) = or_else (first_hc l1) (first_hc l2).
 Proof.
   induction l1 as [|i l1 IH]; intros l2; cbn [app first_hc]; auto.
-  destruct i as [f|f| | | | |]; auto. destruct f; auto.
+  destruct i as [f|f| | | | | | | |]; auto. destruct f; auto.
 Qed.
 
 Lemma mon_items_summary : forall l a a',
@@ -64,15 +55,15 @@ Qed.
 (* the monitor never accepts a second Close frame or a data frame once ours is out *)
 Lemma mon_items_after_sent : forall l a a',
   mon_items a l = Some a' -> a_sent a = true ->
-  existsb is_sclose l = false /\ existsb is_data l = false.
+  existsb is_sclose l = false /\ existsb is_data l = false /\ existsb is_sping l = false.
 Proof.
   induction l as [|i l IH]; intros a a' H Hs; cbn [mon_items] in H; auto.
   destruct (mon_item a i) as [a1|] eqn:E; try discriminate.
   destruct (mon_item_summary _ _ _ E) as (A1 & _).
   assert (Hs1 : a_sent a1 = true) by (rewrite A1, Hs; reflexivity).
-  destruct (IH _ _ H Hs1) as (B1 & B2). cbn [existsb]. rewrite B1, B2, !orb_false_r.
+  destruct (IH _ _ H Hs1) as (B1 & B2 & B3). cbn [existsb]. rewrite B1, B2, B3, !orb_false_r.
   destruct a as [sent hc fired loc sc echo]; cbn in Hs; subst.
-  destruct i as [[c r| | |]|f| |c r| | |]; cbn in E |- *; auto; discriminate.
+  destruct i as [[c r| | |]|f| |c r| | | | | |]; cbn in E |- *; auto; discriminate.
 Qed.
 
 (* ... nor a second close notification *)
@@ -85,7 +76,7 @@ Proof.
   assert (Hs1 : a_fired a1 = true) by (rewrite A3, Hs; reflexivity).
   cbn [existsb]. rewrite (IH _ _ H Hs1), orb_false_r.
   destruct a as [sent hc fired loc sc echo]; cbn in Hs; subst.
-  destruct i as [f|f| |c r| | |]; cbn in E |- *; auto; discriminate.
+  destruct i as [f|f| |c r| | | | | |]; cbn in E |- *; auto; discriminate.
 Qed.
 
 Lemma mon_items_split : forall l1 l2 a a',
@@ -128,8 +119,9 @@ Lemma mon_item_ls : forall a i l c,
   mon_item (with_ls l c a) i = option_map (with_ls l c) (mon_item a i).
 Proof.
   intros [sent hc fired loc sc echo] i l c.
-  destruct i as [[cc r| | |]|[p|k| | | |]| |cc r| | |]; cbn; auto.
+  destruct i as [[cc r| | |]|[p|k| | | |]| |cc r| | | | | |]; cbn; auto.
   - destruct sent; auto. destruct echo; auto. destruct (oN_eqb cc o && is_nil r); auto.
+  - destruct sent; auto.
   - destruct sent; auto.
   - destruct hc; auto.
   - destruct fired; auto.
@@ -188,7 +180,8 @@ Qed.
 Theorem accepted_close_once_then_silent : forall evs t l1 c r l2,
   check_trace evs t = true ->
   items_of t = l1 ++ ISent (SClose c r) :: l2 ->
-  existsb is_sclose l1 = false /\ existsb is_sclose l2 = false /\ existsb is_data l2 = false.
+  existsb is_sclose l1 = false /\ existsb is_sclose l2 = false /\ existsb is_data l2 = false
+  /\ existsb is_sping l2 = false.
 Proof.
   intros evs t l1 c r l2 H E. unfold check_trace in H.
   destruct (mon_run acc0 evs t) as [a'|] eqn:R; try discriminate.
@@ -245,7 +238,7 @@ Qed.
 Lemma is_some_first_hc : forall l, is_some (first_hc l) = existsb is_hclose l.
 Proof.
   induction l as [|i l IH]; cbn [first_hc existsb]; auto.
-  destruct i as [f|f| | | | |]; cbn; auto. destruct f; cbn; auto.
+  destruct i as [f|f| | | | | | | |]; cbn; auto. destruct f; cbn; auto.
 Qed.
 
 Lemma accepted_summary : forall evs t a,
@@ -277,10 +270,7 @@ Lemma mon_step_facts : forall a e its n a',
   mon_step a e (its, n) = Some a' ->
   (e = ETick -> a_sent a = true -> n_sc n = true)
   /\ (a_sc a = true -> n_sc n = true)
-  /\ (e = EWrite -> closing a = true ->
-      cnt is_wok its = 0%nat /\ cnt is_werr its = 1%nat /\ cnt is_data its = 0%nat)
-  /\ (e = EWrite -> closing a = false ->
-      cnt is_wok its = 1%nat /\ cnt is_werr its = 0%nat /\ cnt is_data its = 1%nat).
+  /\ counts its = expected e a.
 Proof.
   intros a e its n a' H. unfold mon_step in H.
   destruct (mon_items (note_event e a) its) as [a1|]; try discriminate.
@@ -289,12 +279,7 @@ Proof.
   repeat split; intros; subst.
   - rewrite H1 in C3. exact C3.
   - rewrite H0 in C5. exact C5.
-  - rewrite H1 in C6. rewrite !andb_true_iff in C6. destruct C6 as ((X & Y) & Z). apply Nat.eqb_eq in X; auto.
-  - rewrite H1 in C6. rewrite !andb_true_iff in C6. destruct C6 as ((X & Y) & Z). apply Nat.eqb_eq in Y; auto.
-  - rewrite H1 in C6. rewrite !andb_true_iff in C6. destruct C6 as ((X & Y) & Z). apply Nat.eqb_eq in Z; auto.
-  - rewrite H1 in C6. rewrite !andb_true_iff in C6. destruct C6 as ((X & Y) & Z). apply Nat.eqb_eq in X; auto.
-  - rewrite H1 in C6. rewrite !andb_true_iff in C6. destruct C6 as ((X & Y) & Z). apply Nat.eqb_eq in Y; auto.
-  - rewrite H1 in C6. rewrite !andb_true_iff in C6. destruct C6 as ((X & Y) & Z). apply Nat.eqb_eq in Z; auto.
+  - apply (list_eqb_sound Nat.eqb); auto. intros x y Hxy. apply Nat.eqb_eq; auto.
 Qed.
 
 (* ---------- the echo ---------- *)
@@ -316,7 +301,7 @@ Proof.
                 exists l3 l4, i :: l = l3 ++ ISent (SClose e []) :: l4 /\ existsb is_sclose l3 = false).
     { intros a1' Ha H1 Hi. destruct (IH a1' b e H1) as (l3 & l4 & L1 & L2); try (rewrite Ha; reflexivity); auto.
       exists (i :: l3), l4. split; [rewrite L1; reflexivity | cbn; rewrite Hi; exact L2]. }
-    destruct i as [[c r| | |]|[p|k| | | |]| |c r| | |]; cbn in E;
+    destruct i as [[c r| | |]|[p|k| | | |]| |c r| | | | | |]; cbn in E;
       try (inversion E; subst a1; apply (K _ eq_refl H eq_refl)).
     + (* our Close frame *)
       destruct (oN_eqb c e && is_nil r) eqn:C; try discriminate.
